@@ -253,7 +253,14 @@ def collision_files():
     hh = header42.header_text("collide.h") + "\n"
     b = (hh + "#ifndef COLLIDE_H\n# define COLLIDE_H\n\n# define ITEM 1\n# define item_max 8\n\ntypedef struct s_item\n{\n\tint\t\titem;\n"
          "\tchar\t*s_item;\n}\tt_item;\n\nint\t\tft_item(t_item *item, int t_item_count);\n\n#endif\n")
-    return [("collide.c", a), ("collide.h", b)]
+    # names that are fragments of words the tool treats specially (__attribute__, environ, defined, main, keywords)
+    hf = header42.header_text("frag.h") + "\n"
+    c = (hf + "#ifndef FRAG_H\n# define FRAG_H\n\nint\t\tattr(int tri, int e);\nint\t\ti(void);\nchar\t*but(char *at, int ute);\n"
+         "int\t\tenv(int iron, int mai);\nvoid\tdefine(int def, int ined);\nint\t\tels(int whil, int retur, int nt);\n\n#endif\n")
+    hc = header42.header_text("frag.c") + "\n"
+    d = (hc + "int\tattr(int tri, int e);\nint\ti(void);\n\nint\tretur(int whil, int els)\n{\n\tint\tin;\n\tint\tvoi;\n\n"
+         "\tin = attr(whil, els);\n\tvoi = i();\n\treturn (in + voi);\n}\n")
+    return [("collide.c", a), ("collide.h", b), ("frag.h", c), ("frag.c", d)]
 
 
 def run(tier, seed):
